@@ -1,0 +1,14 @@
+//go:build verif
+
+package evidence
+
+import (
+	"github.com/tendermint/tendermint/p2p"
+	"github.com/tendermint/tendermint/types"
+)
+
+// VerifPrepareEvidenceMessage exposes prepareEvidenceMessage (what the broadcast routine would send
+// to the peer for this evidence) to the verification harness.
+func (evR *Reactor) VerifPrepareEvidenceMessage(peer p2p.Peer, ev types.Evidence) []types.Evidence {
+	return evR.prepareEvidenceMessage(peer, ev)
+}
